@@ -4,7 +4,8 @@
 for all real data at enumerated sizes — is (i) every HALS row update is the exact minimiser of the one-row problem over
 [eps, inf) at the current other rows (Gauss–Seidel), (ii) a sweep that changes nothing leaves a KKT point of the (penalised)
 problem, (iii) a FISTA step that changes nothing leaves a KKT point, (iv) ADMM without constraints returns the solution of the
-normal equations.  The headline (converged output attains the reference optimum, cold or warm start) and the active-set
+normal equations, (v) the default (cold) start of hals_nnls is defined - every division has a non-zero divisor - for every
+positive definite Gram matrix and right-hand side.  The headline (converged output attains the reference optimum, cold or warm start) and the active-set
 solver are covered only by a BOUNDED stand-in (native runs against scipy.optimize.nnls), reported separately.
 """
 import itertools
@@ -32,7 +33,7 @@ TRUSTED_BASE = [
 ]
 ASSUMPTIONS = [
     "reals, not floats; sizes enumerated (rank <= 2 quick / 3 thorough, 1-2 right-hand sides): proved for all values at those sizes",
-    "UtU is symmetric with positive diagonal (Gram matrix of a design without zero columns); penalties >= 0; eps >= 0",
+    "UtU is symmetric with positive diagonal (Gram matrix of a design without zero columns), positive definite for the cold-start obligation; penalties >= 0; eps >= 0",
     "convergence itself (the limit statement), warm/cold start equivalence and the active-set solver are decided only by the bounded stand-in",
 ]
 QUANTIFICATION = "forall real UtU (symmetric, positive diagonal), UtM, current iterate, penalties; enumerated: sizes, penalty options; bounded: seeded native problems 1-8 unknowns x 1-5 right-hand sides"
@@ -135,7 +136,30 @@ def obligations(tier):
                 res.append(("result >= eps >= 0", d_and(*[d_le(eps, out[k, j]) for k in range(r) for j in range(c)])))
                 return res
             add("hals_nnls", f"rank={r},columns={c},{opt}", dict(A=(r, r), B=(r, c), V=(r, c)), run_sweep, claims, dict(rank=r, columns=c, option=opt),
-                "row updates exact ∧ fixed point ⇒ KKT", params=params, pre=pre, solver_timeout_ms=60000, check_domain=False)
+                "row updates exact ∧ fixed point ⇒ KKT", params=params, pre=pre, solver_timeout_ms=60000, check_domain=True)
+        # ---- HALS cold start: the default initial iterate (clipped, rescaled least-squares solution) is defined - no 0/0 - for EVERY positive definite
+        #      Gram matrix and right-hand side, in particular when every constraint is active at it (clipped solution = 0).  (Its sign is not claimed: the
+        #      rescaling factor can be negative for strongly coupled columns, and the first sweep clips every row anyway - proved above from ANY iterate.)
+        def pre_c(I, r=r):
+            A = _sym_gram(I, r)
+            minors = [A[0, 0] > 0]
+            if r >= 2:
+                minors.append(A[0, 0] * A[1, 1] - A[0, 1] * A[1, 0] > 0)
+            if r >= 3:
+                det3 = (A[0, 0] * (A[1, 1] * A[2, 2] - A[1, 2] * A[2, 1]) - A[0, 1] * (A[1, 0] * A[2, 2] - A[1, 2] * A[2, 0]) + A[0, 2] * (A[1, 0] * A[2, 1] - A[1, 1] * A[2, 0]))
+                minors.append(det3 > 0)
+            return minors
+
+        def run_cold(I, r=r):
+            A = _sym_gram(I, r)
+            cut = LoopCut(nn.hals_nnls)
+            st = cut.prefix(np.array(I["B"], copy=True), A, None, n_iter_max=1)
+            return st["V"]
+
+        def claims_c(I, out, r=r, c=c):
+            return [("the default start has the shape of the right-hand side", tuple(np.shape(out)) == (r, c))]
+        add("hals_nnls", f"rank={r},columns={c},cold start", dict(A=(r, r), B=(r, c)), run_cold, claims_c, dict(rank=r, columns=c, start="cold"),
+            "default start defined (every division has a non-zero divisor)", pre=pre_c, solver_timeout_ms=60000, check_domain=True)
         # ---- FISTA: a step that changes nothing leaves a KKT point
         def pre_f(I, r=r):
             return [I["eps"] >= 0, I["lr"] > 0, I["ls"] >= 0, I["rr"] >= 0] + [I["A"][i, i] > 0 for i in range(r)]
@@ -159,7 +183,7 @@ def obligations(tier):
             return [("a projected-gradient step that changes nothing => KKT (bound eps)", d_implies(same, d_and(*kkt))),
                     ("iterate >= eps after a step", d_and(*[d_le(eps, out[k, j]) for k in range(r) for j in range(c)]))]
         add("fista", f"rank={r},columns={c}", dict(A=(r, r), B=(r, c), x=(r, c)), run_fista, claims_f, dict(rank=r, columns=c), "fixed point ⇒ KKT",
-            params=dict(eps=None, lr=None, ls=None, rr=None), pre=pre_f, solver_timeout_ms=60000, check_domain=False)
+            params=dict(eps=None, lr=None, ls=None, rr=None), pre=pre_f, solver_timeout_ms=60000, check_domain=True)
     # ---- ADMM without constraints: the least-squares solution (E1-generic, all sizes)
     def setup(S):
         n, R = atom("n"), atom("R")
